@@ -92,6 +92,7 @@ type c12gen struct {
 	trees  map[*Module]*xnode
 	feat   map[string]int
 	broken bool // an expansion met a name collision: the set is not used for expectations
+	inner  []*Module // submodules that another submodule includes
 }
 
 type gmeta struct {
@@ -163,11 +164,30 @@ func GenerateC12(r *rand.Rand, opt C12Opts) *C12Set {
 				m.Includes = append(m.Includes, s)
 				subs = append(subs, s)
 			}
-			if len(m.Includes) == 2 && g.chance(0.4) {
-				m.Includes[0].Includes = append(m.Includes[0].Includes, m.Includes[1])
-				g.feat["submodule_including_submodule"]++
-			}
 			g.feat["submodules"] += len(m.Includes)
+			if len(m.Includes) == 2 && g.chance(0.45) {
+				// one submodule includes the other; the owner lists the outer one first, the inner
+				// one first, or does not list the inner one at all (it is then part of the module
+				// only through the nested include)
+				outer, inner := m.Includes[0], m.Includes[1]
+				if g.chance(0.5) {
+					outer, inner = inner, outer
+				}
+				outer.Includes = append(outer.Includes, inner)
+				g.inner = append(g.inner, inner)
+				g.feat["submodule_including_submodule"]++
+				switch k := g.r.Intn(20); {
+				case k < 7:
+					m.Includes = []*Module{outer, inner}
+					g.feat["nested_include:owner_lists_outer_first"]++
+				case k < 15:
+					m.Includes = []*Module{inner, outer}
+					g.feat["nested_include:owner_lists_inner_first"]++
+				default:
+					m.Includes = []*Module{outer}
+					g.feat["nested_include:owner_does_not_list_inner"]++
+				}
+			}
 		}
 	}
 	all := append(append([]*Module{}, mods...), subs...)
@@ -234,8 +254,15 @@ func GenerateC12(r *rand.Rand, opt C12Opts) *C12Set {
 	for round := 0; round < 2; round++ {
 		for _, m := range order {
 			if g.chance(0.55) {
-				g.augment(m, mods)
+				g.augment(m, mods, false)
 			}
+		}
+	}
+	// what a submodule included by another submodule grafts into OTHER modules must still report
+	// the owning module
+	for _, in := range g.inner {
+		if g.chance(0.75) {
+			g.augment(in, mods, true)
 		}
 	}
 	if old != nil {
@@ -726,13 +753,32 @@ func collect(x *xnode, out *[]*xnode) {
 
 // latest is the module an import of m's name resolves to (the set holds at most one older revision,
 // which nobody imports).
-func (g *c12gen) augment(a *Module, mods []*Module) {
-	// target module: the module a belongs to, or an imported one
+func (g *c12gen) augment(a *Module, mods []*Module, foreign bool) {
+	// target module: the module a belongs to, or an imported one (foreign: only the latter)
 	cands := []*Module{ownerOf(a)}
+	if foreign {
+		cands = nil
+	}
 	for _, o := range a.Imports {
 		cands = append(cands, o)
 	}
+	if len(cands) == 0 {
+		for _, o := range mods {
+			if o != ownerOf(a) {
+				cands = append(cands, o)
+			}
+		}
+		if len(cands) == 0 {
+			return
+		}
+		o := cands[g.r.Intn(len(cands))]
+		g.ensureImport(a, o)
+		cands = []*Module{o}
+	}
 	t := cands[g.r.Intn(len(cands))]
+	if foreign {
+		g.feat["augment_from_inner_submodule_into_other_module"]++
+	}
 	pfx := a.Prefix
 	if p, ok := a.ImportPrefix[t]; ok && t != ownerOf(a) {
 		pfx = p
